@@ -1,0 +1,183 @@
+//go:build verif
+
+// Contracts for package tree, checked by /verif/govc (comment-only; not part of any normal build).
+
+package tree
+
+// ---- C08: XOR digests (tree.Xor) ----
+
+//@ func (*Xor).Hash
+//@   prop C08 C19
+//@   safety
+//@   modifies nothing
+//@   ensures [copy] forall k int :: 0 <= k && k < 32 ==> result[k] == (*x)[k]
+
+//@ func (*Xor).xor
+//@   prop C08 C19
+//@   safety
+//@   modifies *x
+//@   ensures [in-place-xor] forall k int :: 0 <= k && k < 32 ==> (*x)[k] == old((*x)[k]) ^ other[k]
+
+//@ func (*Xor).Insert
+//@   prop C08 C19
+//@   safety
+//@   modifies *x
+//@   ensures [xor-in] forall k int :: 0 <= k && k < 32 ==> (*x)[k] == old((*x)[k]) ^ ref[k]
+
+//@ func (*Xor).Delete
+//@   prop C08 C19
+//@   safety
+//@   modifies *x
+//@   ensures [xor-out] forall k int :: 0 <= k && k < 32 ==> (*x)[k] == old((*x)[k]) ^ ref[k]
+
+//@ func (*Xor).UnmarshalBinary
+//@   prop C08 C19
+//@   safety
+//@   modifies *x
+//@   ensures [wrong-length-refused] len(data) != 32 <==> !isNilIface(result)
+//@   ensures [bytes-copied] isNilIface(result) ==> forall k int :: 0 <= k && k < 32 ==> (*x)[k] == old(data[k])
+//@   ensures [error-changes-nothing] !isNilIface(result) ==> forall k int :: 0 <= k && k < 32 ==> (*x)[k] == old((*x)[k])
+
+//@ func (*Xor).Empty
+//@   prop C08 C19
+//@   safety
+//@   modifies nothing
+//@   ensures [all-zero] result <==> forall k int :: 0 <= k && k < 32 ==> (*x)[k] == 0
+
+// Insert followed by Delete of the same reference restores the digest; insertion order is irrelevant.
+//@ lemma xor_involution forall a, b uint8 :: (a ^ b) ^ b == a
+//@   prop C08
+//@ lemma xor_commutes forall a, b, c uint8 :: (a ^ b) ^ c == (a ^ c) ^ b
+//@   prop C08
+
+// ---- C08: IBLT buckets ----
+
+//@ func (*bucket).update
+//@   prop C08 C19
+//@   safety
+//@   modifies *b
+//@   ensures [hash-sum] b.hashSum == old(b.hashSum) ^ hash
+//@   ensures [key-sum] forall k int :: 0 <= k && k < 32 ==> b.keySum[k] == old(b.keySum)[k] ^ key[k]
+//@   ensures [count-unchanged] b.count == old(b.count)
+
+//@ func (*bucket).insert
+//@   prop C08 C19
+//@   safety
+//@   modifies *b
+//@   ensures [count-plus-one] b.count == old(b.count) + 1
+//@   ensures [hash-sum] b.hashSum == old(b.hashSum) ^ hash
+//@   ensures [key-sum] forall k int :: 0 <= k && k < 32 ==> b.keySum[k] == old(b.keySum)[k] ^ key[k]
+
+//@ func (*bucket).delete
+//@   prop C08 C19
+//@   safety
+//@   modifies *b
+//@   ensures [count-minus-one] b.count == old(b.count) - 1
+//@   ensures [hash-sum] b.hashSum == old(b.hashSum) ^ hash
+//@   ensures [key-sum] forall k int :: 0 <= k && k < 32 ==> b.keySum[k] == old(b.keySum)[k] ^ key[k]
+
+//@ func (*bucket).add
+//@   prop C08 C19
+//@   safety
+//@   modifies *b
+//@   ensures [count-added] b.count == old(b.count) + old(o.count)
+//@   ensures [hash-sum] b.hashSum == old(b.hashSum) ^ old(o.hashSum)
+//@   ensures [key-sum] forall k int :: 0 <= k && k < 32 ==> b.keySum[k] == old(b.keySum)[k] ^ old(o.keySum)[k]
+
+//@ func (*bucket).subtract
+//@   prop C08 C19
+//@   safety
+//@   modifies *b
+//@   ensures [count-subtracted] b.count == old(b.count) - old(o.count)
+//@   ensures [hash-sum] b.hashSum == old(b.hashSum) ^ old(o.hashSum)
+//@   ensures [key-sum] forall k int :: 0 <= k && k < 32 ==> b.keySum[k] == old(b.keySum)[k] ^ old(o.keySum)[k]
+
+//@ func (*bucket).equals
+//@   prop C08 C19
+//@   safety
+//@   modifies nothing
+//@   ensures [fieldwise] result <==> (b.count == o.count && b.hashSum == o.hashSum && forall k int :: 0 <= k && k < 32 ==> b.keySum[k] == o.keySum[k])
+
+//@ func (*bucket).isEmpty
+//@   prop C08 C19
+//@   safety
+//@   modifies nothing
+//@   ensures [all-zero] result <==> (b.count == 0 && b.hashSum == 0 && forall k int :: 0 <= k && k < 32 ==> b.keySum[k] == 0)
+
+//@ lemma count_insert_delete forall c int32 :: (c + 1) - 1 == c
+//@   prop C08
+//@ lemma count_add_subtract forall c, d int32 :: (c + d) - d == c
+//@   prop C08
+
+// ---- C08 / C19: IBLT (index safety and bucket-wise arithmetic) ----
+
+//@ func (*Iblt).numBuckets
+//@   prop C08 C19
+//@   modifies nothing
+//@   ensures result == len(i.buckets)
+
+//@ func (*Iblt).hashKey
+//@   prop C08
+//@   modifies nothing
+
+// Termination of the selection loop depends on murmur3 and on k <= number of buckets: NOT proved.
+//@ func (*Iblt).bucketIndices
+//@   prop C08 C19
+//@   safety
+//@   requires 0 < len(i.buckets) && len(i.buckets) <= 4294967295
+//@   loop 1 invariant forall j int :: 0 <= j && j < len(indices) ==> int(indices[j]) < len(i.buckets)
+//@   ensures [indices-in-range] forall j int :: 0 <= j && j < len(result) ==> int(result[j]) < len(i.buckets)
+//@   ensures [receiver-unchanged] len(i.buckets) == old(len(i.buckets))
+
+//@ func (*Iblt).Insert
+//@   prop C08 C19
+//@   safety
+//@   requires 0 < len(i.buckets) && len(i.buckets) <= 4294967295
+//@   ensures [same-shape] len(i.buckets) == old(len(i.buckets))
+
+//@ func (*Iblt).Delete
+//@   prop C08 C19
+//@   safety
+//@   requires 0 < len(i.buckets) && len(i.buckets) <= 4294967295
+//@   ensures [same-shape] len(i.buckets) == old(len(i.buckets))
+
+//@ func (*Iblt).validate
+//@   prop C08 C19
+//@   safety
+//@   modifies nothing
+//@   ensures [compatible-shape] isNilIface(result.1) ==> result.0 != nil && len(result.0.buckets) == len(i.buckets)
+//@           && result.0.hc == i.hc && result.0.hk == i.hk && result.0.k == i.k
+//@   ensures [is-the-argument] isNilIface(result.1) ==> other == Data(result.0)
+
+//@ func (*Iblt).Add
+//@   prop C08 C19
+//@   safety
+//@   loop 1 invariant len(i.buckets) == old(len(i.buckets)) && len(o.buckets) == len(i.buckets) && o != nil
+//@   ensures [same-shape] len(i.buckets) == old(len(i.buckets))
+//@   ensures [incompatible-refused] !isNilIface(ret(call (*Iblt).validate #1).1) ==> !isNilIface(result)
+
+//@ func (*Iblt).Subtract
+//@   prop C08 C19
+//@   safety
+//@   loop 1 invariant len(i.buckets) == old(len(i.buckets)) && len(o.buckets) == len(i.buckets) && o != nil
+//@   ensures [same-shape] len(i.buckets) == old(len(i.buckets))
+//@   ensures [incompatible-refused] !isNilIface(ret(call (*Iblt).validate #1).1) ==> !isNilIface(result)
+
+//@ func (*Iblt).Empty
+//@   prop C08 C19
+//@   safety
+//@   modifies nothing
+//@   loop 1 invariant forall j int :: 0 <= j && j < $i ==> i.buckets[j].count == 0 && i.buckets[j].hashSum == 0
+//@   ensures [all-buckets-zero] result ==> forall j int :: 0 <= j && j < len(i.buckets) ==> i.buckets[j].count == 0 && i.buckets[j].hashSum == 0
+
+//@ func (*bucket).UnmarshalBinary
+//@   prop C08 C19
+//@   safety
+//@   modifies *b
+//@   ensures [wrong-length-refused] len(data) != bucketBytes <==> !isNilIface(result)
+
+//@ func (*Iblt).UnmarshalBinary
+//@   prop C08 C19
+//@   safety
+//@   loop 1 invariant 0 <= j
+//@   ensures [whole-buckets-only] isNilIface(result) ==> len(data) == len(i.buckets) * bucketBytes
